@@ -89,10 +89,8 @@ macro_rules! core_ops2_impl {
                         for (i, (a, l)) in ranges.iter().enumerate() {
                             let what = if i == n { "the remainder".to_string() } else { format!("window {i}") };
                             if i < n && *l < len.min(parent.1) && note.is_none() {
-                                // a window may lose bytes to re-alignment only when len is not a multiple of 64
-                                if len % 64 == 0 {
-                                    note = Some(format!("split_mut({n}, {len}): {what} holds {l} usable bytes"));
-                                }
+                                // every window is a carve of exactly `len` bytes at an aligned start: all of them usable
+                                note = Some(format!("split_mut({n}, {len}): {what} holds only {l} usable bytes"));
                             }
                             if *l > 0 && (*a < parent.0 || a + l > parent.0 + parent.1) && note.is_none() {
                                 note = Some(format!("split_mut({n}, {len}): {what} [{}, +{l}) lies outside the parent of {} bytes", *a as i64 - parent.0 as i64, parent.1));
